@@ -650,7 +650,15 @@ def classify_mislabel(case, ref:Ref, seq, e):
                                 if n in by_id}
                             omitted = [d_ for d_ in diff if d_ not in named]
                             if allcls <= {'SNV'} and omitted:
-                                continue
+                                # ... with one exception seen at about 1e-4: of several
+                                # stop-lost SNVs in series only the first is named
+                                def stop_lost(x):
+                                    rest = M.apply_edits(tseq, [y for y in W if y is not x])
+                                    c0 = x.s - (x.s - st_) % 3
+                                    return x.s >= st_ and rest[c0:c0 + 3] in ('TAA', 'TAG', 'TGA')
+                                sl = sorted((x for x in W if stop_lost(x)), key=lambda x: x.s)
+                                if not {d_ for d_ in omitted} <= {x.rid for x in sl[1:]}:
+                                    continue
                             return 'C03-upstream-attribution'
                         others = {x.rid for x in W} | {n for n in named if n in by_id}
                         crowded = True
